@@ -236,7 +236,7 @@ def run(tier, seed):
         x5 = [("ext", 1, ".y:focus", ":focus", False, None), ("ext", 3, "a.y ~ .y:hover", ".y", False, None),
               ("ext", 2, ".y ~ #j", ".y", False, None)]
         sheets.append((x5, meta_of(x5)))
-    for k in range(700 if not big else 6000):
+    for k in range(700 if not big else 3000):
         sheets.append(gen_sheet(rng, k))
     texts = [sheet_text(it) for it, _ in sheets]
     impl = compile_sheets(pool, texts)
@@ -326,7 +326,7 @@ def run(tier, seed):
                 gs = found.get(rid, (None,))[0]
                 if (ms == "-") != (gs is None):
                     disagree({"case": text, "rule": rid, "model_observation": unhex(ms) if ms != "-" else None, "impl_observation": gs})
-                elif gs is not None:
+                elif gs is not None and len(gs) <= 2500:
                     follow.append(f"sel equiv {H(gs)} {ms} {seed * 53 + n} {NR} 0")
                     fmeta.append(("tie", n, rid, gs, unhex(ms)))
         elif m_run == "unsupported":
@@ -346,6 +346,10 @@ def run(tier, seed):
             S = originals[rid]
             if gs is not None and " ".join(gs.split()) != " ".join(S.split()):
                 rewritten = True
+            if gs is not None and len(gs) > 2500:
+                # weave output with hundreds of complexes: judging it would dominate the run
+                ck.hist("direct:selector-too-large(not judged)")
+                continue
             if meta["ext_not"]:
                 # an extender that negates (`:not(..)`) makes "credited" non-monotone: not judged
                 ck.hist("direct:extender-with-:not(not judged)")
